@@ -5,6 +5,7 @@ import ecdsa
 from ecdsa import util
 
 from vf import gen, lib, sigs
+from vf.lib import Point
 from vf.ref import der_ref, ecdsa_ref, nt
 
 ID = "C02"
@@ -51,6 +52,32 @@ def shards(tier, seed):
 
 
 _BL = {"i": 0}
+def _sized_hash(nbytes):
+    """hashlib-style constructor whose digests are exactly nbytes long (SHAKE-256 output cut to size)."""
+    class _H(object):
+        digest_size = nbytes
+        block_size = 136
+        name = "shake256_%d" % nbytes
+
+        def __init__(self, data=b""):
+            self._h = hashlib.shake_256(bytes(data))
+
+        def update(self, data):
+            self._h.update(bytes(data))
+
+        def digest(self):
+            return self._h.digest(nbytes)
+
+        def hexdigest(self):
+            return self._h.hexdigest(nbytes)
+
+        def copy(self):
+            c_ = _H()
+            c_._h = self._h.copy()
+            return c_
+    return _H
+
+
 DECODERS = {"string": util.sigdecode_string, "strings": util.sigdecode_strings, "der": util.sigdecode_der}
 
 
@@ -249,6 +276,20 @@ def run(ctx, name, kind, **kw):
                             rso = ecdsa_ref.sign(dom, d, k, e_off)
                             if isinstance(rso, tuple) and e_off % n != el % n:
                                 judge(ctx, vk, dom, Q, sigs.ref_encode("string", rso[0], rso[1], n), "string", dgl, at, "prod.digest_length", c.name + "|offbyone", c.name, d=d)
+            # the same through verify() (which hashes itself) with hash functions whose output is exactly dl bytes: verify() and
+            # verify_digest() must read the digest alike (leftmost bits, also when the digest is exactly as long as the order in BYTES
+            # while the order is not a whole number of bytes in BITS)
+            for dl in sorted({L - 1, L, L + 1, 2 * L}):
+                if dl < 1:
+                    continue
+                hf_dl = _sized_hash(dl)
+                msg_dl = b"sized-%d-" % dl + bytes(rng.getrandbits(8) for _ in range(5))
+                dg_dl = hf_dl(msg_dl).digest()
+                e_dl = ecdsa_ref.digest_to_e(dom, dg_dl, True)
+                rs_dl = ecdsa_ref.sign(dom, d, k, e_dl)
+                if isinstance(rs_dl, tuple):
+                    fmt_dl = ("string", "der", "strings")[dl % 3]
+                    judge(ctx, vk, dom, Q, sigs.ref_encode(fmt_dl, rs_dl[0], rs_dl[1], n), fmt_dl, dg_dl, True, "prod.digest_length.verify", c.name + "|L%+d" % (dl - L), c.name, d=d, via_verify=(msg_dl, hf_dl))
             # malleated s: must still verify
             J("prod.malleated_s", r, n - s)
             # R = O : r = -e/d mod n
@@ -301,6 +342,40 @@ def run(ctx, name, kind, **kw):
                     J("prod.wrap_r_plus_n", R[0], sw)
             else:
                 ctx.count("wrap_class_unreachable_on_" + c.name)
+            # chosen R: the x coordinate of R is picked first (at the edges of every interval [m n, (m+1) n) below p, at 0 and at p - 1 - the
+            # reduction of x(R) modulo n has as many cases as p/n is large), then a public key and a digest are SOLVED for so that a
+            # signature with that R is valid: Q = (R - u1 G) / u2, r = x(R) mod n, s = r / u2, e = u1 s.  No private key is involved;
+            # a signature the equation accepts must be accepted wherever x(R) lies
+            xs_ = [0, 1, p - 1, p - 2]
+            for m_ in range(1, p // n + 1):
+                xs_ += [m_ * n - 1, m_ * n, m_ * n + 1, min(p - 1, m_ * n + (p - m_ * n) // 2)]
+            for x0 in xs_:
+                R_ = None
+                for dx in range(0, 40):
+                    for xx in ((x0 + dx), (x0 - dx)):
+                        if 0 <= xx < p:
+                            pts_ = cv.lift_x(xx)
+                            if pts_ and pts_[0][1] != 0 and (dom.h == 1 or cv.mul(n, pts_[0]) is None):
+                                R_ = pts_[rng.randrange(len(pts_))]
+                                break
+                    if R_ is not None:
+                        break
+                if R_ is None:
+                    continue
+                u1, u2 = rng.randrange(1, n), rng.randrange(1, n)
+                Qc = cv.mul(nt.inv(u2, n), cv.add(R_, cv.neg(cv.mul(u1, dom.G))))
+                rc = R_[0] % n
+                if Qc is None or rc == 0:
+                    continue
+                sc = rc * nt.inv(u2, n) % n
+                ec = u1 * sc % n
+                dgc = (ec << (8 * L - n.bit_length())).to_bytes(L, "big")
+                vkc = ecdsa.VerifyingKey.from_public_point(Point(c.curve, Qc[0], Qc[1]), c, hashlib.sha256)
+                ctx.count("chosen_R.x_interval_%d" % (R_[0] // n))
+                for f in fmts:
+                    judge(ctx, vkc, dom, Qc, sigs.ref_encode(f, rc, sc, n), f, dgc, True, "prod.chosen_R", c.name + "|m%d%s" % (R_[0] // n, "|top" if R_[0] > p - 50 else ""), c.name)
+                    if R_[0] >= n:
+                        judge(ctx, vkc, dom, Qc, sigs.ref_encode(f, (rc + 1) % n or 1, sc, n), f, dgc, True, "prod.chosen_R", c.name + "|neighbour", c.name)
     elif kind == "enc":
         c = lib.BY_NAME[kw["cname"]]
         dom = lib.dom_of(c)
